@@ -14,7 +14,8 @@ Decided (proto: abstract walks of the methods of EventEmitter and ProgressReport
   R1  ProgressReporter: every public mutator, from every abstract pre-state, refines the 2-bit spec automaton
       (flag == not armed; `complete` emitted iff the spec announces); R2 the value / maximum are updated
   +   who may write the silence flag: only the constructor, set_silent and silent() (or private helpers reached from them only) - reset / connect / emit may not un-silence
-Not decided: connect by decorator-name parsing, printing, callbacks that raise.
+  +   connect by name: the `on_` prefix is removed as a prefix (regex group / slice after startswith / removeprefix), not by lstrip / replace
+Not decided: printing, callbacks that raise.
 """
 import ast
 import itertools
@@ -622,8 +623,32 @@ def walk_reporter(ctx):
             ctx.holds('C19.R1', fi, '%s refines the completion monitor from both pre-states (%d paths, all relations of value/maximum)' % (opname, npaths), opname)
 
 
+def p2_on_name(ctx, cls):
+    """connect by name: `on_<event>` registers under exactly <event> - the prefix is removed as a PREFIX (regex group, slice after startswith, removeprefix), not as a
+    character set (`lstrip('on_')` eats the leading o / n / _ of the event name itself) nor anywhere in the name (`replace`)."""
+    repo = ctx.repo
+    fi = repo.lookup_method(cls, '_get_on_name')
+    if fi is None:
+        ctx.undecided('C19.P2', cls.name, 'the helper deriving the event name from `on_<event>` was not found')
+        return
+    calls = [c for c in fi.calls()]
+    names = [(q.method_name(c) or dotted(c.func) or '') for c in calls]
+    bad = [c for c in calls if q.method_name(c) in ('lstrip', 'strip', 'replace', 'rstrip') and c.args and isinstance(const_value(c.args[0]), str) and 'on' in const_value(c.args[0])]
+    regex = [c for c in calls if (dotted(c.func) or '') in ('re.match', 're.fullmatch', 're.search', 're.compile') and c.args and isinstance(const_value(c.args[0]), str)]
+    good_re = [c for c in regex if const_value(c.args[0]) in ('^on_(.+)$', 'on_(.+)$', '^on_(.+)', '^on_(.*)$', 'on_(.+)') and dotted(c.func) != 're.search' or
+               (dotted(c.func) == 're.search' and const_value(c.args[0]).startswith('^on_('))]
+    good_slice = any(isinstance(n, ast.Subscript) and isinstance(n.slice, ast.Slice) and const_value(n.slice.lower) == 3 and n.slice.upper is None for n in ast.walk(fi.node)) and \
+        any(q.method_name(c) == 'startswith' and c.args and const_value(c.args[0]) == 'on_' for c in calls)
+    good_rp = any(q.method_name(c) == 'removeprefix' and c.args and const_value(c.args[0]) == 'on_' for c in calls)
+    ctx.tri(bool(good_re) or good_slice or good_rp, bool(bad), 'C19.P2', fi, (bad or good_re or ['_get_on_name'])[0],
+            'connect by name registers `on_<event>` under exactly <event> (the prefix is removed as a prefix)',
+            '`%s` removes CHARACTERS, not the prefix: `on_next` is registered under `ext`, `on_open` under `pen`, and an emit of the real event never calls the callback' % (unparse(bad[0])[:50] if bad else ''),
+            'how the event name is derived from the function name was not recognised')
+
+
 def run(ctx):
     cls = ctx.repo.cls(M, 'EventEmitter')
+    ctx.part('C19.P2', p2_on_name, cls)
     kind = registry_kind(ctx.repo, cls)
     if kind != 'list':
         # closed-form policy: the walks model the registry as ONE list of entries; another container is not a wrong registry, it is one the model does not cover
